@@ -240,7 +240,9 @@ Inductive mstep (s : st) : st -> log -> Prop :=
                   (Z.max 0 (opens s - 1)) (closed s)) [(now s, IShut)]
 | m_lost :
     mstep s (mkSt (now s) None None (pcount s) (last_ping s) (last_data s) (opens s) true)
-          [(now s, ILost)].
+          [(now s, ILost)]
+| m_acked :
+    mstep s s [(now s, IRecv)].
 
 (* base invariant: the log is time-ordered and bounded by the clock; armed timers lie ahead *)
 Record base (s : st) (l : log) : Prop := {
@@ -284,7 +286,7 @@ Lemma base_mstep s l s' o : base s l -> mstep s s' o -> base s' (l ++ o).
 Proof.
   destruct Hok as [Ht [Hto _]].
   intros [Hle Hmo Hp Hc] M.
-  destruct M as [t Hnt Hfree|d Hcl Hpt Hnd Hq Hn|d Hcl Hpt Hnd Hq Hn|d Hcl Hct Hnd Hq| | | | | | ];
+  destruct M as [t Hnt Hfree|d Hcl Hpt Hnd Hq Hn|d Hcl Hpt Hnd Hq Hn|d Hcl Hct Hnd Hq| | | | | | | ];
     destruct s as [nw pt ct pc lp ld op cl]; cbn in *.
   - destruct (log_extend1 nw t l ITick Hle Hmo Hnt) as [A B].
     split; cbn; auto.
@@ -316,6 +318,8 @@ Proof.
     split; cbn; auto.
   - destruct (log_extend1 nw nw l ILost Hle Hmo (Z.le_refl _)) as [A B].
     split; cbn; auto; intros; congruence.
+  - destruct (log_extend1 nw nw l IRecv Hle Hmo (Z.le_refl _)) as [A B].
+    split; cbn; auto.
 Qed.
 
 (* a step of the model is one micro-step, or two at the same instant *)
@@ -431,7 +435,7 @@ Proof.
     by (intros t Ht; apply prov_extend_close; auto).
   assert (Hcl3 : closed s = true -> has IClose (l ++ o) = true \/ has ILost (l ++ o) = true).
   { intros Hc. rewrite !has_app. destruct (P3 Hc) as [H|H]; rewrite H; auto. }
-  destruct M as [t Hnt Hfree|d Hcl Hpt Hnd Hq Hn|d Hcl Hpt Hnd Hq Hn|d Hcl Hct Hnd Hq| | | | | | ].
+  destruct M as [t Hnt Hfree|d Hcl Hpt Hnd Hq Hn|d Hcl Hpt Hnd Hq Hn|d Hcl Hct Hnd Hq| | | | | | | ].
   - (* idle *)
     repeat split.
     + cbn. intros Hc d Hd. apply prov_extend_timer; auto.
@@ -483,6 +487,11 @@ Proof.
     + cbn. intros; congruence.
     + intros t0 Hin. apply in_app_or in Hin. destruct Hin as [Hin|[Hin|[]]]; [auto|inversion Hin].
     + cbn. intros _. right. rewrite has_app. cbn. apply orb_true_r.
+  - (* acked *)
+    repeat split.
+    + cbn. intros Hc d Hd. apply prov_extend_timer; auto.
+    + intros t0 Hin. apply in_app_or in Hin. destruct Hin as [Hin|[Hin|[]]]; [auto|inversion Hin].
+    + cbn. apply Hcl3.
 Qed.
 
 Lemma run_prov t0 evs :
@@ -562,7 +571,7 @@ Proof.
       specialize (Hle _ Hin). exact Hle. }
     destruct (W l1 p m E1 Hna1 Hnl1) as [[d [Hd Hin]]|[Hcl [d [Hd Hle]]]].
     { left. exists d. split; auto. apply in_or_app. left. exact Hin. }
-    destruct M as [t Hnt Hfree|d' Hcl' Hpt Hnd Hq Hn|d' Hcl' Hpt Hnd Hq Hn|d' Hcl' Hct Hnd Hq| | | | | | ];
+    destruct M as [t Hnt Hfree|d' Hcl' Hpt Hnd Hq Hn|d' Hcl' Hpt Hnd Hq Hn|d' Hcl' Hct Hnd Hq| | | | | | | ];
       cbn in *; try discriminate.
     + right. split; auto. exists d. auto.
     + right. split; auto. exists d. rewrite Hd. auto.
@@ -573,8 +582,9 @@ Proof.
     + right. split; auto. exists d. auto.
     + right. split; auto. exists d. auto.
     + right. split; auto. exists d. auto.
+    + right. split; auto. exists d. auto.
   - (* the ping is logged by this very step *)
-    destruct M as [t Hnt Hfree|d' Hcl' Hpt Hnd Hq Hn|d' Hcl' Hpt Hnd Hq Hn|d' Hcl' Hct Hnd Hq| | | | | | ];
+    destruct M as [t Hnt Hfree|d' Hcl' Hpt Hnd Hq Hn|d' Hcl' Hpt Hnd Hq Hn|d' Hcl' Hct Hnd Hq| | | | | | | ];
       apply single_split in E2; destruct E2 as [_ [E2 _]]; inversion E2; subst.
     right. cbn. split; auto.
     destruct (close_timer s) as [x|] eqn:Ect.
@@ -642,10 +652,10 @@ Proof.
   destruct D as [[Hcl [d [Hd Hin]]]|[Hcl [dp [Hdp Hcase]]]].
   { (* already closed: nothing changes that *)
     assert (Hin' : In (d, IClose) (l ++ o)) by (apply in_or_app; auto).
-    destruct M as [t Hnt Hfree|d' Hcl' Hpt Hnd Hq Hn|d' Hcl' Hpt Hnd Hq Hn|d' Hcl' Hct Hnd Hq| | | | | | ];
+    destruct M as [t Hnt Hfree|d' Hcl' Hpt Hnd Hq Hn|d' Hcl' Hpt Hnd Hq Hn|d' Hcl' Hct Hnd Hq| | | | | | | ];
       try congruence; left; cbn; split; eauto. }
   destruct Q as [Qa [Ql Qs]].
-  destruct M as [t Hnt Hfree|d' Hcl' Hpt Hnd Hq Hn|d' Hcl' Hpt Hnd Hq Hn|d' Hcl' Hct Hnd Hq| | | | | | ];
+  destruct M as [t Hnt Hfree|d' Hcl' Hpt Hnd Hq Hn|d' Hcl' Hpt Hnd Hq Hn|d' Hcl' Hct Hnd Hq| | | | | | | ];
     cbn in *.
   - (* idle *)
     right. split; auto. exists dp. split; auto.
@@ -684,6 +694,8 @@ Proof.
   - right. split; auto. exists dp. split; auto.
   - (* lost: excluded *)
     rewrite has_app in Ql. cbn in Ql. rewrite orb_true_r in Ql. discriminate.
+  - (* acked *)
+    right. split; auto. exists dp. split; auto.
 Qed.
 
 Lemma silent_peer_detected t0 evs :
@@ -845,7 +857,7 @@ Lemma rate_mstep s l s' o : base c s l -> rate s l -> mstep c s s' o -> rate s' 
 Proof.
   intros Hb [R1 R2 R3 R4 R5 R6] M.
   destruct Hok as [Ht [Hto [Hmx Hmi]]].
-  destruct M as [t Hnt Hfree|d Hcl Hpt Hnd Hq Hn|d Hcl Hpt Hnd Hq Hn|d Hcl Hct Hnd Hq| | | | | | ];
+  destruct M as [t Hnt Hfree|d Hcl Hpt Hnd Hq Hn|d Hcl Hpt Hnd Hq Hn|d Hcl Hct Hnd Hq| | | | | | | ];
     (split; cbn [last_ping pcount closed ping_timer set_now];
      [rewrite lastping_app, <- R1; try reflexivity
      |rewrite tailcount_app, <- R2; try reflexivity
@@ -914,7 +926,7 @@ Proof.
   - split; [|intros []]. split; cbn; auto. intros; congruence.
   - intros s l s' o Hb [R Hno] M. split; [eapply rate_mstep; eauto|].
     intros Hin. apply in_app_or in Hin. destruct Hin as [Hin|Hin]; [auto|].
-    destruct M as [t Hnt Hfree|d Hcl Hpt Hnd Hq Hn|d Hcl Hpt Hnd Hq Hn|d Hcl Hct Hnd Hq| | | | | | ];
+    destruct M as [t Hnt Hfree|d Hcl Hpt Hnd Hq Hn|d Hcl Hpt Hnd Hq Hn|d Hcl Hct Hnd Hq| | | | | | | ];
       destruct Hin as [Hin|[]]; try discriminate.
     clear Hin. unfold need_ping in Hn. rewrite Hp, Hm in Hn. cbn in Hn.
     destruct (last_ping s) as [lp|] eqn:El; [|discriminate].
@@ -963,7 +975,7 @@ Proof.
         In (t0 + j * k_time c, IPing) (l ++ o) \/ In (t0 + j * k_time c, ISkip) (l ++ o)).
   { intros H1 H2. destruct (P H1 H2) as [k [Hk [Hp Hall]]]. exists k. repeat split; auto.
     intros j Hj. destruct (Hall j Hj); [left|right]; apply in_or_app; auto. }
-  destruct M as [t Hnt Hfree|d Hcl Hpt Hnd Hq Hn|d Hcl Hpt Hnd Hq Hn|d Hcl Hct Hnd Hq| | | | | | ];
+  destruct M as [t Hnt Hfree|d Hcl Hpt Hnd Hq Hn|d Hcl Hpt Hnd Hq Hn|d Hcl Hct Hnd Hq| | | | | | | ];
     intros Hc He; cbn in Hc |- *; try discriminate; auto.
   - destruct (P Hcl He) as [k [Hk [Hp Hall]]]. rewrite Hp in Hpt. inversion Hpt; subst d.
     exists (k + 1). repeat split; [lia|f_equal; lia|].
